@@ -107,7 +107,7 @@ var blockedStates = map[string]bool{
 // process is not quiescent while it exists (time.After inside a select leaves no time.* frame).
 var DefaultTimerFrames = []string{
 	"time.Sleep",
-	"pubsub/sync.WaitGroupTimeout",
+	"pubsub/sync.WaitGroupTimeout(", // the caller that selects on time.After; its helper goroutine (.func1) only sits in wg.Wait
 	"Retry.Middleware",
 	"middleware.(*Throttle)",
 	"middleware.Throttle",
@@ -169,7 +169,7 @@ func Quiescent(snap []Goroutine, o WaitOpts) bool {
 		for _, f := range DefaultTimerFrames {
 			skip := false
 			for _, n := range o.NoTimerCheck {
-				if n == f {
+				if n == f || strings.HasPrefix(f, n) {
 					skip = true
 				}
 			}
